@@ -8,7 +8,11 @@
 // RoundTripper that parks at an environment point where the explorer chooses the
 // answer (current key set / rotated key set / 500 / invalid JSON / transport
 // error, or abort when the request context is cancelled). Context cancellations
-// are free environment events. Quiescence between steps comes from
+// are free environment events. WHICH JWKS document a 200 answer carries (extra
+// entry of kind unknown kty / duplicate / encryption key / undecodable known kty /
+// non-object at the first, middle or last position; plain; empty; only unknown
+// kty) is the sequential dimension: see docKinds and docScenarios — one or two
+// callers only, all their schedules. Quiescence between steps comes from
 // testing/synctest, so an execution is a pure function of its choice sequence.
 package c13
 
